@@ -359,7 +359,7 @@ struct XPrint : Engine {
     std::string describe(const Case& c) override { if (c.kind == 2) return "tree with about " + std::to_string(c.iv[1]) + " bytes of small tokens followed by a " + std::to_string(c.iv[2]) + "-byte string"; if (c.kind == 1) return "special tree #" + std::to_string(c.iv[1]) + " (string without text / member without name)"; RV rv; if (!rv_deser(c.str(), rv)) return "?"; return printable(rv_text(rv).substr(0, 160)); }
     void finish(std::map<std::string, std::string>& x) override {
         x["rule"] = jstr("one case = one reference tree, built through the construction API, constant-key API, bulk constructors and the parser; evaluations = trees, transitions = library calls, "
-                         "non-trivial = trees that printed; every print entry point x every prebuffer/caller-buffer size x both allocator configurations is executed per tree");
+                         "non-trivial = trees that printed; every print entry point x every prebuffer/caller-buffer size x both allocator configurations is executed per tree; stages: all trees up to the node bound, all strings up to 3 (thorough 4) bytes over a 12-byte alphabet, strings / member names of every length 0..300 and around 512 / 1024 / 4096 in 7 escape patterns, numbers, buffer-growth boundaries, special trees (non-finite, raw, unnamed members, 0..20 empty raw items)");
     }
 };
 } // namespace
